@@ -22,6 +22,10 @@ def match_slot(exp, slot):
         return slot["k"] in SLOT_KINDS
     if k in ("empty", "err"):
         return slot["k"] == k
+    if k == "int":
+        if slot["k"] != "num" or slot.get("bits") != exp["bits"]:
+            return False
+        return exp["base"] == 0 or slot.get("pr") == exp["pr"]
     if k == "ts":
         want = [exp["d"], exp["s"]]
         return slot["k"] == "num" and slot.get("ts") == want and slot.get("pr", want) == want
